@@ -200,12 +200,46 @@ def representable(s: str) -> bool:
     return True  # a text field can always hold a single line
 
 
-def write_doc(blocks, comment=""):
+TARGETS = st.sampled_from(["StringIO", "StringIO", "StringIO", "str", "Path", "file"])
+FILE_NAMES = st.sampled_from(["out.cif", "out.cif", "out", "result.v2", "my file.cif", "d\u00e5ta.cif", "OUT.CIF"])
+
+
+def write_via(writer, target="StringIO", fname="out.cif"):
+    """Call writer(target object) for a StringIO / str path / Path / open text file and return the
+    text that ended up there.  A path target must produce exactly the named file, readable as ASCII."""
+    import os
+    import tempfile
+    from pathlib import Path
+
+    if target == "StringIO":
+        buf = io.StringIO()
+        writer(buf)
+        return buf.getvalue()
+    with tempfile.TemporaryDirectory(prefix="vf-c14-") as tmp:
+        path = os.path.join(tmp, fname)
+        if target == "str":
+            writer(path)
+        elif target == "Path":
+            writer(Path(path))
+        else:
+            with open(path, "w", encoding="utf-8", newline="") as f:
+                writer(f)
+        if os.listdir(tmp) != [fname]:
+            raise Violation("wrong-file", f"saving to the {target} target {fname!r} left the files "
+                                          f"{sorted(os.listdir(tmp))} in an otherwise empty directory")
+        with open(path, "rb") as f:
+            raw = f.read()
+    try:
+        return raw.decode("ascii").replace("\r\n", "\n")
+    except UnicodeDecodeError:
+        raise Violation("non-ascii", f"the file written to the {target} target holds non-ASCII bytes: "
+                                     f"{raw[:200]!r}") from None
+
+
+def write_doc(blocks, comment="", target="StringIO", fname="out.cif"):
     from scippneutron.io import cif
 
-    buf = io.StringIO()
-    cif.save_cif(buf, blocks, comment=comment)
-    return buf.getvalue()
+    return write_via(lambda t: cif.save_cif(t, blocks, comment=comment), target, fname)
 
 
 def parse_checked(text):
@@ -358,7 +392,7 @@ def document_cases(draw):
             items.append(draw(st.one_of(chunk_desc(keys), loop_desc(keys))))
         blocks.append({"name": name, "comment": draw(comment_text), "schema": draw(st.sampled_from([None, None, "core"])),
                        "items": items})
-    return {"comment": draw(comment_text), "blocks": blocks}
+    return {"comment": draw(comment_text), "blocks": blocks, "target": draw(TARGETS), "fname": draw(FILE_NAMES)}
 
 
 def schema_obj(name):
@@ -476,7 +510,9 @@ def check_document_full(case):
     blocks_in = [cif.Block(b["name"], [build_item(it) for it in b["items"]], comment=b["comment"],
                            schema=schema_obj(b["schema"])) for b in case["blocks"]]
     try:
-        text = write_doc(blocks_in, comment=case["comment"])
+        text = write_doc(blocks_in, comment=case["comment"], target=case.get("target", "StringIO"),
+                         fname=case.get("fname", "out.cif"))
+        labs.append("target:" + case.get("target", "StringIO"))
     except ValueError as e:
         if any(not representable(s) for s in all_strings):
             return [*labs, "refused-unrepresentable"], True
@@ -645,7 +681,7 @@ def builder_cases(draw):
             seen.add(o["op"])
         out.append(o)
     return {"name": draw(st.text(alphabet="abcdefghijklmnopqrstuvwxyz-_0123456789", min_size=1, max_size=12)),
-            "comment": draw(comment_text), "ops": out}
+            "comment": draw(comment_text), "ops": out, "target": draw(TARGETS), "fname": draw(FILE_NAMES)}
 
 
 class BuilderState:
@@ -889,14 +925,13 @@ def check_builder(case):
     for o in [*case["ops"], {"op": "save"}, {"op": "save"}]:
         labs.append("op:" + o["op"])
         if o["op"] == "save":
-            buf = io.StringIO()
             try:
-                cif_.save(buf)
+                text = write_via(cif_.save, case.get("target", "StringIO"), case.get("fname", "out.cif"))
             except ValueError as e:
                 if any(not representable(s) for s in strings):
                     return [*labs, "refused-unrepresentable"], True
                 raise Violation("refused", f"save refused with ValueError: {e}") from None
-            verify_save(cif_, state, case, buf.getvalue())
+            verify_save(cif_, state, case, text)
             saves += 1
         else:
             cif_ = apply_op(cif_, state, o)
